@@ -32,8 +32,12 @@ class Lock:
 
 
 def sh(cmd, cwd=None, timeout=None, env=None, input=None):
-    p = subprocess.run(cmd, cwd=cwd, shell=isinstance(cmd, str), capture_output=True, text=True,
-                       timeout=timeout, env=env or ENV, input=input)
+    try:
+        p = subprocess.run(cmd, cwd=cwd, shell=isinstance(cmd, str), capture_output=True, text=True,
+                           timeout=timeout, env=env or ENV, input=input)
+    except subprocess.TimeoutExpired as e:
+        # a step that does not terminate on the current tree (e.g. a seeded infinite loop) is a failed step, not a hung check
+        return 124, (e.stdout or "") if isinstance(e.stdout, str) else "", f"timeout after {timeout}s: {cmd if isinstance(cmd, str) else ' '.join(map(str, cmd))[:200]}"
     return p.returncode, p.stdout, p.stderr
 
 
